@@ -233,6 +233,19 @@ struct ClpSys {
             idx[kv.first] = (j == w.map.entries_.end()) ? 999999 : p;
         }
         for (auto &kv : idx) { out += kv.first; out += '\0'; put64(out, kv.second); }
+        // The reference model is part of the state: if the implementation ever diverges from it, the pair
+        // (real, model) is a new state even when the real half alone was seen before, so it gets observed.
+        out += "|M";
+        put64(out, w.m.limit);
+        put64(out, w.m.used);
+        for (auto &e : w.m.lru) {
+            out += e.key; out += '\0';
+            put64(out, (uint64_t)e.id);
+            put64(out, e.mem);
+            const int64_t rel = (int64_t)e.expires - (int64_t)w.m.now;
+            put64(out, (uint64_t)(rel < 0 ? -1 : rel));
+            put64(out, e.cost);
+        }
     }
 
     void classify(const World &w)
